@@ -747,7 +747,13 @@ func main() {
 			if i == len(sites)-1 {
 				sep = ""
 			}
-			out.Line("  ⟨%s, %s⟩%s  -- line %d", leanStr(s.ID()), leanStr(s.Class), sep, s.Line)
+			fl := []string{}
+			if s.Class != "" {
+				for _, f := range strings.Split(s.Class, "+") {
+					fl = append(fl, leanStr(f))
+				}
+			}
+			out.Line("  ⟨%s, [%s]⟩%s  -- line %d", leanStr(s.ID()), strings.Join(fl, ", "), sep, s.Line)
 		}
 		out.Line("]")
 		out.Line("")
